@@ -195,6 +195,19 @@ class UnitResult:
 
 
 def run_unit(name, tier='quick', seed=0):
+    """Serialise per unit: two property checks that share a unit (lattice serves C06, C07, C08) may run at the same
+    time and would otherwise write the same .work/<unit>/ files.  The lock is held for the unit's run only."""
+    import fcntl
+    os.makedirs(WORK, exist_ok=True)
+    with open(os.path.join(WORK, name + '.lock'), 'w') as lk:
+        fcntl.flock(lk, fcntl.LOCK_EX)
+        try:
+            return _run_unit(name, tier, seed)
+        finally:
+            fcntl.flock(lk, fcntl.LOCK_UN)
+
+
+def _run_unit(name, tier='quick', seed=0):
     """Generate + verify one unit.  Returns UnitResult; never raises for verification outcomes."""
     r = UnitResult()
     r.name = name
@@ -331,6 +344,20 @@ def _digest_main(r, main, text, spans, fns):
             if a <= off < b and s.fn:
                 oid = s.clause or '%s/%s/safety' % (r.name, s.fn)
                 break
+        if oid is not None and oid.endswith('/safety'):
+            # an invariant that fails at a `continue`/`break` (or a postcondition at an early `return`) has the jump as
+            # its primary span and the clause as a secondary span labelled "failed this invariant/postcondition":
+            # attribute the failure to that clause, not to the function's safety obligation
+            for s2 in d.get('spans', []):
+                if s2 is sp or os.path.basename(s2.get('file_name', '')) != os.path.basename(main['path']):
+                    continue
+                if 'failed this' not in (s2.get('label') or ''):
+                    continue
+                off2 = _offset(text, s2['line_start'], s2['column_start'])
+                hit = next((sg.clause for (a, b, sg) in spans if a <= off2 < b and sg.fn and sg.clause), None)
+                if hit:
+                    oid = hit
+                    break
         if oid is None:
             # a postcondition declared on a TRAIT method in the template and violated by an extracted impl:
             # the primary span is the trait's clause, a secondary span is the impl body
